@@ -11,22 +11,23 @@ import (
 // replayFile mirrors overlay/zsim.ReplayFile. The scenario is kept as generic
 // JSON so that the minimiser can edit it without sharing types with the worker.
 type replayFile struct {
-	Property  string                 `json:"property"`
-	Base      uint64                 `json:"base_seed"`
-	Run       uint64                 `json:"run"`
-	Seed      uint64                 `json:"seed"`
-	Build     string                 `json:"build"`
-	Scenario  map[string]interface{} `json:"scenario"`
-	Decisions []decision             `json:"decisions"`
-	Violation *violation             `json:"violation,omitempty"`
-	History   *history               `json:"history,omitempty"`
-	Signature string                 `json:"signature"`
-	RaceSig   string                 `json:"race_signature,omitempty"`
-	RaceText  string                 `json:"race_report,omitempty"`
-	Minimised bool                   `json:"minimised"`
-	Note      string                 `json:"note,omitempty"`
-	Repro     string                 `json:"reproduce,omitempty"`
-	Stats     map[string]int         `json:"minimisation,omitempty"`
+	Property   string                 `json:"property"`
+	Base       uint64                 `json:"base_seed"`
+	Run        uint64                 `json:"run"`
+	Seed       uint64                 `json:"seed"`
+	Build      string                 `json:"build"`
+	Scenario   map[string]interface{} `json:"scenario"`
+	Decisions  []decision             `json:"decisions"`
+	Violation  *violation             `json:"violation,omitempty"`
+	History    *history               `json:"history,omitempty"`
+	GiantEvery uint64                 `json:"giant_every,omitempty"`
+	Signature  string                 `json:"signature"`
+	RaceSig    string                 `json:"race_signature,omitempty"`
+	RaceText   string                 `json:"race_report,omitempty"`
+	Minimised  bool                   `json:"minimised"`
+	Note       string                 `json:"note,omitempty"`
+	Repro      string                 `json:"reproduce,omitempty"`
+	Stats      map[string]int         `json:"minimisation,omitempty"`
 }
 
 func writeJSON(path string, v interface{}) error {
@@ -70,7 +71,7 @@ func report(o *options, p *prepared, f *finding, budgetS float64) string {
 	dir := filepath.Join(o.VerifDir, "replays")
 	os.MkdirAll(dir, 0o755)
 	path := filepath.Join(dir, fmt.Sprintf("%s-%d-%d.json", propertyID, o.Seed, f.Run))
-	rf := &replayFile{Property: propertyID, Base: o.Seed, Run: f.Run, Seed: f.Seed, Build: f.Build, Signature: f.Sig, Violation: f.Viol}
+	rf := &replayFile{Property: propertyID, Base: o.Seed, Run: f.Run, Seed: f.Seed, Build: f.Build, Signature: f.Sig, Violation: f.Viol, GiantEvery: giantEveryOf(f)}
 	rf.Repro = fmt.Sprintf("cd %s && ./check %s --replay %s", o.VerifDir, propertyID, path)
 	if f.Race != nil {
 		rf.RaceSig = f.Race.Sig
@@ -187,6 +188,14 @@ func report(o *options, p *prepared, f *finding, budgetS float64) string {
 	return path
 }
 
+// giantEveryOf: the scenario generation parameter the finding's worker ran with.
+func giantEveryOf(f *finding) uint64 {
+	if f.Phase == "giant" {
+		return 1
+	}
+	return 0
+}
+
 func (f *finding) Oracle() string {
 	if f.Viol != nil {
 		return f.Viol.Oracle
@@ -197,7 +206,7 @@ func (f *finding) Oracle() string {
 // regenerate re-runs one run index in the race build to obtain the explicit
 // execution (scenario and decision list) of a run that only produced a race report.
 func regenerate(o *options, p *prepared, f *finding) *violRec {
-	args := []string{"-base", u(o.Seed), "-from", u(f.Run), "-count", "1", "-samples", "0", "-execs"}
+	args := []string{"-base", u(o.Seed), "-from", u(f.Run), "-count", "1", "-samples", "0", "-execs", "-giant-every", u(giantEveryOf(f))}
 	if f.Cold {
 		args = append(args, "-cold-first")
 	}
